@@ -46,6 +46,9 @@ constexpr auto ceil_check(T const x) noexcept -> T
                           // signed-zero cases
             x == T(0) ? x
                       :
+                      // every value of this magnitude is an integer (and need not fit llint_t)
+            abs(x) >= T(1) / etl::numeric_limits<T>::epsilon() ? x
+                                                               :
                                                        // else
             ceil_int(x, T(static_cast<llint_t>(x)))
     );
